@@ -37,6 +37,106 @@ impl<T: RealNumber> Default for LBFGS<T> {
     }
 }
 
+/// Verification hook (cfg `smartcore_verif` only): a thread-local recorder of what one call of
+/// `LBFGS::optimize` did. Off by default; switched on with `verif_lbfgs_record(true)`.
+#[cfg(smartcore_verif)]
+pub mod verif {
+    use std::cell::RefCell;
+
+    /// One iteration of `optimize` (one call of `update_state`).
+    #[derive(Debug, Clone, Default)]
+    pub struct VerifLbfgsStep {
+        /// the iterate the step starts from
+        pub x: Vec<f64>,
+        /// the gradient at `x` (what `two_loops` was given)
+        pub g: Vec<f64>,
+        /// the search direction returned by `two_loops`
+        pub s: Vec<f64>,
+        /// objective at `x`
+        pub f: f64,
+        /// directional derivative `g . s` handed to the line search
+        pub df0: f64,
+        /// step length returned by the line search
+        pub alpha: f64,
+        /// objective at `x + alpha * s`
+        pub f_new: f64,
+    }
+
+    /// Record of one call of `optimize`.
+    #[derive(Debug, Clone, Default)]
+    pub struct VerifLbfgsRun {
+        /// gradient at the starting point
+        pub g0: Vec<f64>,
+        /// the iterations, oldest first
+        pub steps: Vec<VerifLbfgsStep>,
+        /// returned point
+        pub x_final: Vec<f64>,
+        /// gradient at the returned point
+        pub g_final: Vec<f64>,
+        /// 0: initial gradient below `g_atol` (no iteration), 1: gradient test, 2: step test,
+        /// 3: objective-change counter, 4: `max_iter` exhausted
+        pub exit: u8,
+        /// `OptimizerResult::iterations`
+        pub iterations: usize,
+    }
+
+    thread_local! {
+        static ON: RefCell<bool> = RefCell::new(false);
+        static RUNS: RefCell<Vec<VerifLbfgsRun>> = RefCell::new(Vec::new());
+    }
+
+    /// Switch recording on or off for this thread (and forget earlier records).
+    pub fn verif_lbfgs_record(on: bool) {
+        ON.with(|o| *o.borrow_mut() = on);
+        RUNS.with(|r| r.borrow_mut().clear());
+    }
+    /// Is recording on for this thread?
+    pub fn verif_lbfgs_on() -> bool {
+        ON.with(|o| *o.borrow())
+    }
+    /// Take the records of this thread, oldest first.
+    pub fn verif_lbfgs_take() -> Vec<VerifLbfgsRun> {
+        RUNS.with(|r| std::mem::take(&mut *r.borrow_mut()))
+    }
+    pub(super) fn begin(g0: Vec<f64>) {
+        RUNS.with(|r| {
+            r.borrow_mut().push(VerifLbfgsRun {
+                g0,
+                ..Default::default()
+            })
+        });
+    }
+    pub(super) fn step(st: VerifLbfgsStep) {
+        RUNS.with(|r| {
+            if let Some(run) = r.borrow_mut().last_mut() {
+                run.steps.push(st);
+            }
+        });
+    }
+    pub(super) fn end(x_final: Vec<f64>, g_final: Vec<f64>, exit: u8, iterations: usize) {
+        RUNS.with(|r| {
+            if let Some(run) = r.borrow_mut().last_mut() {
+                run.x_final = x_final;
+                run.g_final = g_final;
+                run.exit = exit;
+                run.iterations = iterations;
+            }
+        });
+    }
+}
+
+#[cfg(smartcore_verif)]
+fn verif_flat<T: RealNumber, X: Matrix<T>>(m: &X) -> Vec<f64> {
+    let (r, c) = m.shape();
+    let mut v = Vec::with_capacity(r * c);
+    for i in 0..r {
+        for j in 0..c {
+            v.push(m.get(i, j).to_f64().unwrap());
+        }
+    }
+    v
+}
+
 impl<T: RealNumber> LBFGS<T> {
     fn two_loops<X: Matrix<T>>(&self, state: &mut LBFGSState<T, X>) {
         let lower = state.iteration.max(self.m) - self.m;
@@ -114,6 +214,16 @@ impl<T: RealNumber> LBFGS<T> {
         state.x_prev.copy_from(&state.x);
 
         let df0 = state.x_df.dot(&state.s);
+        #[cfg(smartcore_verif)]
+        let mut verif_step = verif::VerifLbfgsStep::default();
+        #[cfg(smartcore_verif)]
+        if verif::verif_lbfgs_on() {
+            verif_step.x = verif_flat(&state.x);
+            verif_step.g = verif_flat(&state.x_df);
+            verif_step.s = verif_flat(&state.s);
+            verif_step.f = state.x_f_prev.to_f64().unwrap();
+            verif_step.df0 = df0.to_f64().unwrap();
+        }
 
         let f_alpha = |alpha: T| -> T {
             let mut dx = state.s.clone();
@@ -136,6 +246,12 @@ impl<T: RealNumber> LBFGS<T> {
         state.x.add_mut(&state.dx);
         state.x_f = f(&state.x);
         df(&mut state.x_df, &state.x);
+        #[cfg(smartcore_verif)]
+        if verif::verif_lbfgs_on() {
+            verif_step.alpha = state.alpha.to_f64().unwrap();
+            verif_step.f_new = state.x_f.to_f64().unwrap();
+            verif::step(verif_step);
+        }
     }
 
     fn assess_convergence<X: Matrix<T>>(&self, state: &mut LBFGSState<T, X>) -> bool {
@@ -208,6 +324,10 @@ impl<T: RealNumber> FirstOrderOptimizer<T> for LBFGS<T> {
         let mut state = self.init_state(x0);
 
         df(&mut state.x_df, x0);
+        #[cfg(smartcore_verif)]
+        if verif::verif_lbfgs_on() {
+            verif::begin(verif_flat(&state.x_df));
+        }
 
         let g_converged = state.x_df.norm(T::infinity()) < self.g_atol;
         let mut converged = g_converged;
@@ -223,6 +343,33 @@ impl<T: RealNumber> FirstOrderOptimizer<T> for LBFGS<T> {
             }
 
             state.iteration += 1;
+        }
+
+        #[cfg(smartcore_verif)]
+        if verif::verif_lbfgs_on() {
+            let exit: u8 = if state.iteration == 0 {
+                if converged {
+                    0
+                } else {
+                    4
+                }
+            } else if !converged {
+                4
+            } else if state.x_df.norm(T::infinity()) <= self.g_atol {
+                1
+            } else if state.x.max_diff(&state.x_prev) <= self.x_atol
+                || state.x.max_diff(&state.x_prev) <= self.x_rtol * state.x.norm(T::infinity())
+            {
+                2
+            } else {
+                3
+            };
+            verif::end(
+                verif_flat(&state.x),
+                verif_flat(&state.x_df),
+                exit,
+                state.iteration,
+            );
         }
 
         OptimizerResult {
